@@ -290,7 +290,13 @@ fn special_bits(rng: &mut Rng, dt: DataType) -> u64 {
 
 pub fn gen_src(rng: &mut Rng, dt: DataType) -> Src {
     let rank = rng.urange(0, 5);
-    let base_shape: Vec<usize> = (0..rank).map(|_| if rng.chance(1, 25) { 0 } else { rng.urange(1, 4) }).collect();
+    let mut base_shape: Vec<usize> = (0..rank).map(|_| if rng.chance(1, 25) { 0 } else { rng.urange(1, 4) }).collect();
+    // Now and then a payload well beyond one I/O buffer (8 KiB): readers must
+    // cope with a source that hands the data over in several pieces.
+    if rank >= 1 && rng.chance(1, 12) {
+        let i = rng.below(rank);
+        base_shape[i] = rng.urange(300, 3000);
+    }
     let n = naive::numel(&base_shape);
     let bits: Vec<u64> = (0..n).map(|_| special_bits(rng, dt)).collect();
     let mut ops = Vec::new();
@@ -405,6 +411,45 @@ impl RtCase {
     }
 }
 
+/// A reader that hands its data over in small pieces (at most `chunk` bytes
+/// per call), as pipes, sockets and decompressors do.
+pub struct Dribble<'a> {
+    data: &'a [u8],
+    pos: u64,
+    chunk: usize,
+}
+
+impl<'a> Dribble<'a> {
+    pub fn new(data: &'a [u8], chunk: usize) -> Self {
+        Dribble { data, pos: 0, chunk: chunk.max(1) }
+    }
+}
+
+impl std::io::Read for Dribble<'_> {
+    fn read(&mut self, buf: &mut [u8]) -> std::io::Result<usize> {
+        let start = (self.pos as usize).min(self.data.len());
+        let n = buf.len().min(self.chunk).min(self.data.len() - start);
+        buf[..n].copy_from_slice(&self.data[start..start + n]);
+        self.pos += n as u64;
+        Ok(n)
+    }
+}
+
+impl std::io::Seek for Dribble<'_> {
+    fn seek(&mut self, from: std::io::SeekFrom) -> std::io::Result<u64> {
+        let new = match from {
+            std::io::SeekFrom::Start(o) => o as i128,
+            std::io::SeekFrom::End(o) => self.data.len() as i128 + o as i128,
+            std::io::SeekFrom::Current(o) => self.pos as i128 + o as i128,
+        };
+        if new < 0 {
+            return Err(std::io::Error::new(std::io::ErrorKind::InvalidInput, "seek before start"));
+        }
+        self.pos = new as u64;
+        Ok(self.pos)
+    }
+}
+
 #[derive(Debug)]
 pub struct RtFail {
     pub what: String,
@@ -446,6 +491,18 @@ pub fn run_roundtrip(rep: &mut Report, c: &RtCase, tmp_dir: Option<&str>) -> Res
                     Ok(Ok(())) => {}
                 }
                 rep.max("max_file_bytes", buf.len() as u64);
+                // Same bytes through a reader that returns short counts.
+                let chunk = 1 + (buf.len() * 7 + 13) % 1000;
+                match catch(|| npy::read(Dribble::new(&buf, chunk))) {
+                    Err(m) => return Err(fail("panic:read(short reads)", 0, m)),
+                    Ok(Err(e)) => return Err(fail("read_error(short reads)", 0, format!("{} (reader returns at most {} bytes per call)", e, chunk))),
+                    Ok(Ok(v)) => {
+                        rep.count("reads_through_short_count_reader");
+                        if let Some(w) = compare(rep, src.dt, &expected[0], &v) {
+                            return Err(fail(&format!("short_reads:{}", w), 0, String::new()));
+                        }
+                    }
+                }
                 catch(|| npy::read(&buf[..]))
             };
             match got {
@@ -480,6 +537,20 @@ pub fn run_roundtrip(rep: &mut Report, c: &RtCase, tmp_dir: Option<&str>) -> Res
             rep.max("max_file_bytes", buf.len() as u64);
             if let Some(p) = &path {
                 let _ = std::fs::write(p, &buf);
+            }
+            {
+                let chunk = 1 + (buf.len() * 7 + 13) % 1000;
+                let short = if npz_fmt { catch(|| npz::read(Dribble::new(&buf, chunk))) } else { catch(|| safetensors::read(Dribble::new(&buf, chunk))) };
+                match short {
+                    Err(m) => return Err(fail("panic:read(short reads)", 0, m)),
+                    Ok(Err(e)) => return Err(fail("read_error(short reads)", 0, format!("{} (reader returns at most {} bytes per call)", e, chunk))),
+                    Ok(Ok(m)) => {
+                        rep.count("reads_through_short_count_reader");
+                        if m.len() != c.entries.len() {
+                            return Err(fail("short_reads:entry_count", 0, format!("wrote {} entries, read {}", c.entries.len(), m.len())));
+                        }
+                    }
+                }
             }
             let all = if npz_fmt {
                 match &path {
@@ -667,6 +738,140 @@ fn foreign_npy_case(rep: &mut Report, rng: &mut Rng, k: u64) {
     }
 }
 
+/// .safetensors files as other writers produce them, built from the format
+/// specification: 8-byte little-endian header length, JSON header (optionally
+/// padded with spaces to any length, not only multiples of 8), tensors laid
+/// out back to back in any order, so that multi-byte tensors may start at
+/// offsets that are not aligned for their element type.
+fn foreign_safetensors_case(rep: &mut Report, rng: &mut Rng, k: u64) {
+    let n_tensors = rng.urange(1, 3);
+    let names = ["a", "b", "c"];
+    let st_name = |dt: DataType| match dt {
+        DataType::Bool => "BOOL",
+        DataType::Int8 => "I8",
+        DataType::UInt8 => "U8",
+        DataType::Int16 => "I16",
+        DataType::UInt16 => "U16",
+        DataType::Int32 => "I32",
+        DataType::UInt32 => "U32",
+        DataType::Float32 => "F32",
+        DataType::Int64 => "I64",
+        DataType::UInt64 => "U64",
+        _ => "F64",
+    };
+    let mut entries: Vec<(String, DataType, Vec<usize>, Vec<u64>)> = Vec::new();
+    let mut data: Vec<u8> = Vec::new();
+    let mut header = String::from("{");
+    for t in 0..n_tensors {
+        let dt = DTYPES[((k as usize) + t * 5 + rng.below(11)) % 11];
+        let size = match dt {
+            DataType::Bool | DataType::Int8 | DataType::UInt8 => 1usize,
+            DataType::Int16 | DataType::UInt16 => 2,
+            DataType::Int32 | DataType::UInt32 | DataType::Float32 => 4,
+            _ => 8,
+        };
+        let rank = rng.urange(0, 3);
+        let shape: Vec<usize> = (0..rank).map(|_| rng.urange(1, 3)).collect();
+        let n = naive::numel(&shape);
+        let bits: Vec<u64> = (0..n).map(|_| special_bits(rng, dt)).collect();
+        let begin = data.len();
+        for b in &bits {
+            data.extend_from_slice(&b.to_le_bytes()[..size]);
+        }
+        if t > 0 {
+            header.push(',');
+        }
+        header.push_str(&format!(
+            "\"{}\":{{\"dtype\":\"{}\",\"shape\":[{}],\"data_offsets\":[{},{}]}}",
+            names[t],
+            st_name(dt),
+            shape.iter().map(|d| d.to_string()).collect::<Vec<_>>().join(","),
+            begin,
+            data.len()
+        ));
+        entries.push((names[t].to_string(), dt, shape, bits));
+    }
+    header.push('}');
+    // Any amount of trailing padding is allowed by the format.
+    let pad = rng.below(9);
+    for _ in 0..pad {
+        header.push(' ');
+    }
+    let mut file = (header.len() as u64).to_le_bytes().to_vec();
+    file.extend_from_slice(header.as_bytes());
+    file.extend_from_slice(&data);
+    rep.eval();
+    rep.count("foreign_safetensors_files");
+    if (8 + header.len()) % 8 != 0 {
+        rep.count("foreign_safetensors_files_with_unaligned_data_start");
+    }
+    rep.nontrivial(&("foreign_st", file.clone()));
+    let mut what: Option<String> = None;
+    match catch(|| safetensors::read(&file[..])) {
+        Err(m) => what = Some(format!("panic:{}", crate::c38::norm_panic(&m))),
+        Ok(Err(e)) => what = Some(format!("read_error:{}", panic_class(&e.to_string()))),
+        Ok(Ok(map)) => {
+            for (name, dt, shape, bits) in &entries {
+                let logical = Arr::new(shape.clone(), bits.clone());
+                match map.get(name) {
+                    None => what = Some(format!("missing_entry:{}", name)),
+                    Some(v) => {
+                        if let Some(w) = compare(rep, *dt, &logical, v) {
+                            what = Some(w);
+                        }
+                    }
+                }
+                match catch(|| safetensors::read_array(&file[..], name)) {
+                    Err(m) => what = Some(format!("panic:read_array:{}", crate::c38::norm_panic(&m))),
+                    Ok(Err(e)) => what = Some(format!("read_array_error:{}", panic_class(&e.to_string()))),
+                    Ok(Ok(v)) => {
+                        if let Some(w) = compare(rep, *dt, &logical, &v) {
+                            what = Some(format!("read_array:{}", w));
+                        }
+                    }
+                }
+            }
+        }
+    }
+    if let Some(w) = what {
+        rep.violation(
+            format!("C34|safetensors_spec|header_mod8={}|{}", (8 + header.len()) % 8, w),
+            format!("a .safetensors file built from the format specification (header of {} bytes incl. {} bytes of padding, {} tensors: {}) does not read back as the tensors it encodes: {}", header.len(), pad, entries.len(), entries.iter().map(|e| format!("{}:{}{:?}", e.0, dt_name(e.1), e.2)).collect::<Vec<_>>().join(" "), w),
+            json!({"mode": "foreign_safetensors", "hex": to_hex(&file),
+                   "entries": entries.iter().map(|e| json!({"name": e.0, "dtype": dt_name(e.1), "shape": e.2, "bits": e.3.iter().map(|b| format!("{:x}", b)).collect::<Vec<_>>()})).collect::<Vec<_>>()}),
+        );
+    }
+}
+
+fn replay_foreign_st(rep: &mut Report, w: &Json) {
+    let file = from_hex(w["hex"].as_str().unwrap_or(""));
+    rep.eval();
+    let res = catch(|| safetensors::read(&file[..]));
+    let mut what: Option<String> = None;
+    match res {
+        Err(m) => what = Some(format!("panic:{}", crate::c38::norm_panic(&m))),
+        Ok(Err(e)) => what = Some(format!("read_error:{}", panic_class(&e.to_string()))),
+        Ok(Ok(map)) => {
+            for e in w["entries"].as_array().cloned().unwrap_or_default() {
+                let dt = dt_from_name(e["dtype"].as_str().unwrap_or("f32")).unwrap_or(DataType::Float32);
+                let shape: Vec<usize> = e["shape"].as_array().map(|a| a.iter().map(|x| x.as_u64().unwrap_or(0) as usize).collect()).unwrap_or_default();
+                let bits: Vec<u64> = e["bits"].as_array().map(|a| a.iter().map(|x| u64::from_str_radix(x.as_str().unwrap_or("0"), 16).unwrap_or(0)).collect()).unwrap_or_default();
+                match map.get(e["name"].as_str().unwrap_or("")) {
+                    None => what = Some("missing_entry".into()),
+                    Some(v) => {
+                        if let Some(x) = compare(rep, dt, &Arr::new(shape, bits), v) {
+                            what = Some(x);
+                        }
+                    }
+                }
+            }
+        }
+    }
+    if let Some(wh) = what {
+        rep.violation(format!("C34|safetensors_spec|replay|{}", wh), format!("replayed .safetensors file does not read back as the tensors it encodes: {}", wh), w.clone());
+    }
+}
+
 fn replay_foreign(rep: &mut Report, w: &Json) {
     let file = from_hex(w["hex"].as_str().unwrap_or(""));
     let dt = dt_from_name(w["dtype"].as_str().unwrap_or("f32")).unwrap_or(DataType::Float32);
@@ -684,7 +889,7 @@ fn replay_foreign(rep: &mut Report, w: &Json) {
     }
 }
 
-pub const RULE: &str = "Round trips: tensors of all 11 element types, ranks 0-5 with dims 0-4, special float/integer values, sources built with rten-tensor as contiguous / permuted / strided-sliced / broadcast views (expected elements computed independently with the naive array model), written with npy::write, npz::write (0-8 entries, awkward names), safetensors::write (in memory and through files) and read back with read / read_array / read_from_file. NumPy-format .npy files built from the format specification (versions 1-3, little/big/native endian, C and Fortran order) must read back as the array they encode. Malformed files: valid files and hand-built headers mutated at header length fields, descr / fortran_order / shape strings, zip end-of-central-directory and central-directory fields, safetensors header length, JSON dtype / shape / data_offsets, plus truncations and byte flips; read through the same public readers in child processes (catch_unwind, allocation monitor, per-case alarm). A round-trip case is non-trivial when the source has at least 2 elements or a non-contiguous layout; a malformed case when the mutant kept its outer framing (npy magic, zip end-of-central-directory signature, safetensors header length within the file) or the reader returned a value.";
+pub const RULE: &str = "Round trips: tensors of all 11 element types, ranks 0-5 with dims 0-4, special float/integer values, sources built with rten-tensor as contiguous / permuted / strided-sliced / broadcast views (expected elements computed independently with the naive array model), written with npy::write, npz::write (0-8 entries, awkward names), safetensors::write (in memory and through files) and read back with read / read_array / read_from_file. NumPy-format .npy files built from the format specification (versions 1-3, little/big/native endian, C and Fortran order) must read back as the array they encode, and so must .safetensors files built from the specification with any amount of header padding and tensors at offsets not aligned for their element type. Every in-memory read is repeated through a reader that returns short counts (1-1000 bytes per call), and one source in twelve has a payload of several I/O buffers. Malformed files: valid files and hand-built headers mutated at header length fields, descr / fortran_order / shape strings, zip end-of-central-directory and central-directory fields, safetensors header length, JSON dtype / shape / data_offsets, plus truncations and byte flips; read through the same public readers in child processes (catch_unwind, allocation monitor, per-case alarm). A round-trip case is non-trivial when the source has at least 2 elements or a non-contiguous layout; a malformed case when the mutant kept its outer framing (npy magic, zip end-of-central-directory signature, safetensors header length within the file) or the reader returned a value.";
 
 pub fn run(args: &Args) {
     unsafe { std::env::set_var("RUST_BACKTRACE", "0") };
@@ -704,7 +909,9 @@ pub fn run(args: &Args) {
         let text = std::fs::read_to_string(path).expect("read replay file");
         let j: Json = serde_json::from_str(&text).expect("parse replay file");
         let w = if j.get("witness").is_some() { j["witness"].clone() } else { j };
-        if w["mode"].as_str() == Some("foreign_npy") {
+        if w["mode"].as_str() == Some("foreign_safetensors") {
+            replay_foreign_st(&mut rep, &w);
+        } else if w["mode"].as_str() == Some("foreign_npy") {
             replay_foreign(&mut rep, &w);
         } else if w["mode"].as_str() == Some("roundtrip") {
             let c = RtCase::from_json(&w).expect("roundtrip witness");
@@ -769,6 +976,8 @@ pub fn run(args: &Args) {
     for k in 0..n_foreign {
         let mut rng = Rng::derive(args.seed, 0x34_4000_0000 + base + k);
         foreign_npy_case(&mut rep, &mut rng, k);
+        let mut rng2 = Rng::derive(args.seed, 0x34_5000_0000 + base + k);
+        foreign_safetensors_case(&mut rep, &mut rng2, k);
     }
     let n_mal = args.budget(if miri { 30 } else { 9000 }, if miri { 300 } else { 1_400_000 });
     c34mal::run(&mut rep, args, corpus, n_mal);
